@@ -22,15 +22,17 @@ RULE = ("complete enumeration: 12 base grids (Cartesian 1-3d x periodicity masks
         "variants (non-zero / negative origin, unequal cell counts and spacings in both orders, periodic axis first / middle / last, polar and "
         "spherical grids with inner radius > 0 and fine slicing, narrow / flat / shifted / dz != dr cylinders) x modes {0,1,2,3,8} "
         "x width {not given, 0.5, 0.0} x refine on/off x threshold rule {0.5, extrema, mean, otsu}, minimal_radius drawn from {default, 0, -1, -inf}; "
-        "+ image types (int64, uint8, float32 data) x every grid x modes {0,2} x width {not given, 0.5} x refine on/off x {extrema, mean}; "
+        "+ image types (int64, uint8 with grey levels 10..250, float32 data) x every grid x modes {0,2} x width {not given, 0.5} x refine on/off x {extrema, mean}; "
         "+ images without droplets x every grid x modes {0,2} x width x refine; + num_processes in {2, 'auto'} with refinement on five grids; "
         "non-trivial = at least one droplet located; distinct by configuration")
 
-# inputs that make the UNCHANGED tree behave questionably; reported in the evidence notes, not judged (the lead decides)
-SUSPECTED = [
-    "empty-result-data: when no droplet is located, locate_droplets returns Emulsion([]) whose .data raises RuntimeError ('emulsion is "
-    "empty and an explicit dtype has not been specified'), whereas locate_droplets_in_mask returns Emulsion.empty(example) for the same "
-    "image; the property's 'tabular data can be formed' is judged for results with at least one droplet only",
+# behaviour that is observed and counted in the evidence but lies outside the judged property (decision of the lead): the property
+# speaks about every RESULT droplet (class, amplitudes, width, one layout so that the table can be formed); a result without droplets
+# has none, and the error its .data raises is the documented one of an empty emulsion without explicit dtype
+OBSERVED_OUTSIDE_PROPERTY = [
+    "empty-result-data: when no droplet is located, locate_droplets returns Emulsion([]) whose .data raises the documented RuntimeError "
+    "('emulsion is empty and an explicit dtype has not been specified'), whereas locate_droplets_in_mask returns Emulsion.empty(example) "
+    "for the same image; 'tabular data can be formed' is judged for results with at least one droplet",
 ]
 
 CLS = {"SphericalDroplet": "Spherical", "DiffuseDroplet": "Diffuse", "PerturbedDroplet2D": "P2D",
@@ -84,8 +86,9 @@ IMAGES = ["float64", "int64", "uint8", "float32", "empty"]
 
 
 def field_for(name, grid, k, image="float64"):
-    """the image of one configuration; `image`: float64 (rendered droplets), int64 / uint8 (the same, 8 grey levels, integer
-    data), float32, empty (all zero: nothing to locate)"""
+    """the image of one configuration; `image`: float64 (rendered droplets), int64 (the same, 8 grey levels, integer data),
+    uint8 (grey levels 10..250: min + max is outside the range of the type, defect F36 of C18), float32, empty (all zero: nothing
+    to locate)"""
     from pde import ScalarField
     f = _rendered(name, grid, k)
     if image == "float64":
@@ -94,8 +97,9 @@ def field_for(name, grid, k, image="float64"):
         return ScalarField(grid, np.zeros(grid.shape))
     if image == "float32":
         return ScalarField(grid, f.data.astype(np.float32), dtype=np.float32)
-    dt = {"int64": np.int64, "uint8": np.uint8}[image]
-    return ScalarField(grid, np.round(f.data * 8).astype(dt), dtype=dt)
+    if image == "uint8":
+        return ScalarField(grid, np.round(10 + np.clip(f.data, 0, 1) * 240).astype(np.uint8), dtype=np.uint8)
+    return ScalarField(grid, np.round(f.data * 8).astype(np.int64), dtype=np.int64)
 
 
 def _rendered(name, grid, k):
@@ -190,7 +194,7 @@ def oracle(cfg, out):
             return f"non-finite interface width {d['width']}"
         if width is not None and not refine and d["width"] != width:
             return f"supplied width {width} not carried (got {d['width']})"
-    if not out["data_ok"] and out["drops"]:      # without droplets: SUSPECTED[0], counted, not judged
+    if not out["data_ok"] and out["drops"]:      # without droplets: OBSERVED_OUTSIDE_PROPERTY[0], counted, not judged
         return "emulsion.data cannot be formed (no uniform layout)"
     return None
 
@@ -265,8 +269,8 @@ def check(ctx: vlib.Ctx) -> int:
                      f"rq_modes := {vlib.zlit(modes)}; rq_refine := {vlib.blit(refine)} |}}, {obs})")
         meta.append(cfg + (image, opts))
     for k, v in empty_data.items():
-        ctx.count("suspected: .data of a result without droplets", k, v)
-    ctx.notes.append("SUSPECTED (reported, not judged): " + " | ".join(SUSPECTED))
+        ctx.count("observed outside the property: .data of a result without droplets", k, v)
+    ctx.notes.append("observed, outside the judged property: " + " | ".join(OBSERVED_OUTSIDE_PROPERTY))
     ctx.sample({"config": list(map(str, meta[len(meta) // 2])), "coq_case": cases[len(cases) // 2]})
     header = """From Coq Require Import QArith ZArith List Bool.
 Import ListNotations.
